@@ -294,7 +294,7 @@ def check(run):
                         'counter(pages) needs the relayout loop (C15): only its displayed value is monitored here',
                         'page groups (:nth(.. of name)) : the group index bookkeeping of _update_page_groups is monitored on simple documents, not modelled']
     tick('prove')
-    tasks = [t(run, random.Random(run.seed * 7919 + 14 + 1000 * k), T) for k, t in enumerate(TASKS)]
+    tasks = [t(run, random.Random(run.seed * 7919 + 14 + 1000 * k), T) for t, k in TASKS]
     drive(run, tasks)
 
 
@@ -355,6 +355,8 @@ def t_match(run, rng, T):
     res = yield from run_stream(run, 'match-direct', 'page_match', cases,
                      lambda c, o: '(%s, %s, %s)' % (sel_lit(c['sel']), pt_lit(c['pt']), blit(o)),
                      'selector * page_type * bool', 'match_judge',
+                     spec_bits=[(2, '_page_type_match answers against the meaning of the page selector (side, :blank, :first, name, '
+                                    ':nth(an+b [of group]))', 'page-selector-match')],
                      rule='random selectors (side/blank/first/name/:nth/:nth of) x page types biased to match')
     run.stream_info('match-direct', matched=sum(1 for c, o, m in res if o))
 
@@ -1320,8 +1322,165 @@ def t_pdf_render(run, rng, T):
                     ':first with another bleed; page dictionaries read in a finisher (before) and from the bytes (after)')
 
 
-TASKS = [t_pages_render, t_strings_render, t_marginbox_render, t_pdf_render, t_sizes, t_nth, t_match, t_parse, t_cascade, t_pwh, t_cfd,
-         t_cvd, t_cvd_vertical, t_counters, t_strings]
+def t_nth_group(run, rng, T):
+    """:nth(an+b of name) exhaustively on a small domain against page types with page groups"""
+    R = range(-5, 6) if T else range(-3, 4)
+    B = range(-6, 9) if T else range(-4, 7)
+    N = 12 if T else 9
+    cases = []
+    for a in R:
+        for b in B:
+            sel = [None, None, None, [a, b, 'chap'], None]
+            for i in range(N):
+                j = (i * 5 + 3) % N
+                cases.append(dict(sel=sel, pt=['right', False, 'chap', i + 2, [['chap', i]]]))           # one group
+                cases.append(dict(sel=sel, pt=['left', False, 'chap', i + 9, [['chap', j], ['chap', i]]]))  # same name twice
+                cases.append(dict(sel=sel, pt=['right', False, 'chap', i, [['app', i], ['chap', j]]]))     # another group first
+                cases.append(dict(sel=sel, pt=['left', False, 'chap', i, [['app', i]]]))                   # no group of that name
+                cases.append(dict(sel=sel, pt=['right', False, '', i, [['chap', i]]]))                     # page not named
+                cases.append(dict(sel=[None, None, None, [a, b, 'chap'], 'chap'], pt=['right', False, 'chap', 0, [['chap', i]]]))
+    res = yield from run_stream(run, 'nthgroup-direct', 'page_match', cases,
+                                lambda c, o: '(%s, %s, %s)' % (sel_lit(c['sel']), pt_lit(c['pt']), blit(o)),
+                                'selector * page_type * bool', 'match_judge',
+                                spec_bits=[(2, ':nth(an+b of name) answered against `exists n >= 0, a*n+b = position in the page group`',
+                                            'nth-of-group')],
+                                key=lambda c: (tuple(c['sel'][3]), c['sel'][4], json.dumps(c['pt'])),
+                                rule='exhaustive a in %d..%d, b in %d..%d, group index 0..%d x 6 shapes of page type (one group, two groups '
+                                     'of the same name, other group first, no such group, unnamed page, name + :nth of)' % (
+                                         R[0], R[-1], B[0], B[-1], N - 1), per_file=1200)
+    run.stream_info('nthgroup-direct', matched=sum(1 for c, o, m in res if o),
+                    negative_step_matched=sum(1 for c, o, m in res if o and c['sel'][3][0] < 0))
+
+
+def gen_groups_doc(rng, maxpages):
+    """unnamed intro, then sections with named pages (each one a page group) of varying lengths; @page :nth(an+b of name)
+    rules setting distinguishable margin-left values"""
+    ltr = rng.random() < 0.8
+    m = rng.choice([2, 3])
+    sections = [(None, '', rng.choice([1, m, m + 1]))]
+    budget = maxpages - 2
+    for i in range(rng.choice([1, 2, 3, 4])):
+        k = rng.choice(['page', 'page', 'page', 'left', 'right'])
+        name = rng.choice(['chap', 'chap', 'app', ''])
+        pages = rng.choice([1, 2, 3, 4, 5, 7])
+        if pages + 1 > budget:
+            break
+        budget -= pages + 1
+        n = pages * m - rng.randint(0, m - 1)
+        sections.append((k, name, n))
+    rules = []
+    for r in range(rng.choice([1, 2, 3, 4, 5])):
+        a = rng.choice([-1, -1, -2, -2, -3, 0, 1, 2, 3])
+        b = rng.choice([-4, -1, 0, 1, 2, 2, 3, 3, 4, 5, 6, 8])
+        rules.append((a, b, rng.choice(['chap', 'chap', 'app']), 25 + 4 * r))
+    named = [(n, v) for n, v in (('chap', 13), ('app', 17)) if rng.random() < 0.6]
+    H = m * 10 + 30
+    css = '@page{size:200px %dpx;margin:10px 20px 20px 20px}\n' % H
+    for n, v in named:
+        css += '@page %s{margin-left:%dpx}\n' % (n, v)
+    for a, b, g, v in rules:
+        css += '@page :nth(%s of %s){margin-left:%dpx}\n' % (nth_text(a, b, rng), g, v)
+    css += BASE % ('direction:%s' % ('ltr' if ltr else 'rtl'))
+    body = ''
+    for i, (k, name, n) in enumerate(sections):
+        st = []
+        if k:
+            st.append('break-before:%s' % k)
+        if name:
+            st.append('page:%s' % name)
+        body += '<section id="s%d" style="%s">%s</section>' % (i, ';'.join(st), '<div class="l">aa</div>' * n)
+    return dict(html='<style>%s</style>%s' % (css, body), ltr=ltr, m=m, sections=sections, rules=rules, named=named)
+
+
+def groups_cases(doc, pages):
+    """one Coq case (groups_judge) per page, or a string when the document did not paginate as the generator assumes"""
+    content = []
+    for i, (k, name, n) in enumerate(doc['sections']):
+        for j in range(-(-n // doc['m'])):
+            content.append((i, j))
+    cpages = [p for p in pages if not p['blank']]
+    if len(cpages) != len(content):
+        return 'predicted %d pages with content, got %d' % (len(content), len(cpages))
+    rules = lst(doc['rules'], lambda r: '(%s, %s, %s, %s)' % (zlit(r[0]), zlit(r[1]), slit(r[2]), zlit(r[3])))
+    named = lst(doc['named'], lambda nv: '(%s, %s)' % (slit(nv[0]), zlit(nv[1])))
+    out = []
+    ci = 0
+    for idx, p in enumerate(pages):
+        if p['blank']:
+            name, pos = '', None
+        else:
+            si, j = content[ci]
+            ci += 1
+            if p['ids'] != (['s%d' % si] if j == 0 else []):
+                return 'page %d holds %s' % (idx, p['ids'])
+            name = doc['sections'][si][1]
+            pos = j + 1 if name else None
+        out.append(('(%s, %s, 20, (%s, %s), %s, %s)' % (
+            rules, named, slit(name), opt(pos, zlit),
+            pt_lit([p['side'], p['blank'], p['name'], p['index'], p['groups']]), zlit(int(round(p['ml'])))), idx, name, pos, p['ml']))
+    return out
+
+
+GROUPS_T = 'list group_rule * list (string * Z) * Z * (string * option Z) * page_type * Z'
+
+
+def t_groups_render(run, rng, T):
+    maxpages = 40 if T else 16
+    docs = [gen_groups_doc(rng, maxpages) for _ in range(400 if T else 110)]
+    # the shape of seeded demos: a chapter of 4 pages and one of 3, first-two-pages rule
+    docs[0] = dict(ltr=True, m=2, sections=[(None, '', 1), ('page', 'chap', 8), ('page', 'chap', 6), ('page', '', 1)],
+                   rules=[(-1, 2, 'chap', 33)], named=[('chap', 13)], html=None)
+    d0 = docs[0]
+    d0['html'] = ('<style>@page{size:200px 50px;margin:10px 20px 20px 20px}@page chap{margin-left:13px}'
+                  '@page :nth(-n+2 of chap){margin-left:33px}' + BASE % '' + '</style>' +
+                  ''.join('<section id="s%d" style="%s">%s</section>' % (
+                      i, ';'.join((['break-before:%s' % k] if k else []) + (['page:%s' % nm] if nm else [])), '<div class="l">aa</div>' * n)
+                      for i, (k, nm, n) in enumerate(d0['sections'])))
+    outs = yield impl('pages_render', [{'html': d['html']} for d in docs])
+    cases, meta, harness_bad = [], [], []
+    npages = 0
+    for d, (st, o) in zip(docs, outs):
+        if st != 'ok':
+            run.fail('groups-render: render %s' % (o['type'] if st == 'exc' else st), {'stream': 'groups-render', 'html': d['html'], 'outcome': o},
+                     signature='crash:%s' % ((o or {}).get('site'),) if st == 'exc' else 'timeout')
+            continue
+        cs = groups_cases(d, o)
+        if isinstance(cs, str):
+            harness_bad.append(cs + '\n' + d['html'])
+            continue
+        npages += len(cs)
+        for c in cs:
+            cases.append(c[0]); meta.append((d, c[1], c[2], c[3], c[4]))
+    run.oblige('harness:pagination-prediction(groups-render documents paginate as the generator assumes)', not harness_bad,
+               '%d documents; first: %s' % (len(harness_bad), harness_bad[0] if harness_bad else ''))
+    masks = yield coq('c14groups', PRE, GROUPS_T, cases, 'groups_judge', per_file=250)
+    if isinstance(masks, Exception):
+        run.oblige('corr:groups-render', False, str(masks))
+    else:
+        bad = [x for x, m in zip(meta, masks) if m & 1]
+        run.oblige('corr:groups-render(selector matching + cascade on the rendered page types vs used margins)', not bad,
+                   'first: page %s of %s' % ((bad[0][1], bad[0][0]['html']) if bad else ('', '')))
+        shown = 0
+        for (d, idx, name, pos, ml), m in zip(meta, masks):
+            if m & 2 and shown < 2:
+                shown += 1
+                run.fail('groups-render: page %d (page %s of its %r page group) has margin-left %s: not the value of the last '
+                         '@page :nth(an+b of name) rule whose a*n+b (n >= 0) equals that position' % (idx + 1, pos, name, ml),
+                         {'stream': 'groups-render', 'html': d['html'], 'page': idx + 1, 'doc': strip_doc(d)}, signature='nth-of-group')
+        run.stream_info('groups-render', pages=npages,
+                        pages_selected_by_nth_rule=sum(1 for x in meta if x[4] >= 25),
+                        negative_step_rules=sum(1 for d in docs for r in d['rules'] if r[0] < 0))
+    run.count('groups-render', len(cases), cases, samples=[docs[1]['html'][:600]])
+    run.stream_info('groups-render', rule='unnamed intro + 1-4 sections with named pages (page groups of 1..7 pages, forced page/left/right '
+                    'breaks, blank pages, same name repeated) x 1-5 rules @page :nth(an+b of name), a in -3..3 (half negative), b in -4..8, '
+                    'each setting its own margin-left; every page judged against `exists n>=0, a*n+b = position in group`')
+
+
+# (task, index of its random stream): the order is the order in which failing inputs are reported, the index keeps every
+# stream's cases independent of that order
+TASKS = [(t_groups_render, 16), (t_pages_render, 0), (t_strings_render, 1), (t_marginbox_render, 2), (t_pdf_render, 3), (t_sizes, 4),
+         (t_nth, 5), (t_nth_group, 15), (t_match, 6), (t_parse, 7), (t_cascade, 8), (t_pwh, 9), (t_cfd, 10), (t_cvd, 11),
+         (t_cvd_vertical, 12), (t_counters, 13), (t_strings, 14)]
 
 
 def strip_doc(d):
@@ -1369,6 +1528,30 @@ def replay(data):
             for i, p in enumerate(o):
                 print('replay: page', i + 1, p['heads'], p['first_is_head'], p['texts'])
         return 1
+    if stream == 'groups-render':
+        (st, o), = common.run_impl('impl_c14', 'pages_render', [{'html': d['html']}])
+        if st != 'ok':
+            print('replay: render', st, o); return 1
+        doc = dict(d['doc']); doc['html'] = d['html']
+        doc['sections'] = [tuple(x) for x in doc['sections']]; doc['rules'] = [tuple(x) for x in doc['rules']]
+        doc['named'] = [tuple(x) for x in doc['named']]
+        cs = groups_cases(doc, o)
+        if isinstance(cs, str):
+            print('replay:', cs); return 1
+        masks = common.eval_cases('c14replay', PRE, GROUPS_T, [c[0] for c in cs], 'groups_judge')
+        for c, m in zip(cs, masks):
+            print('replay: page %d name %r position %s margin-left %s groups %s %s' % (
+                c[1] + 1, c[2], c[3], c[4], o[c[1]]['groups'], 'WRONG' if m & 2 else ''))
+        return 1 if any(m & 2 for m in masks) else 0
+    if stream in ('match-direct', 'nthgroup-direct'):
+        (st, o), = common.run_impl('impl_c14', 'page_match', [d['case']])
+        print('replay: _page_type_match now answers', st, o)
+        if st != 'ok':
+            return 1
+        m = common.eval_cases('c14replay', PRE, 'selector * page_type * bool',
+                              ['(%s, %s, %s)' % (sel_lit(d['case']['sel']), pt_lit(d['case']['pt']), blit(o))], 'match_judge')
+        print('replay: judge mask', m)
+        return 1 if m[0] & 2 else 0
     if stream == 'size-render':
         (st, o), = common.run_impl('impl_c14', 'marginbox_render', [{'html': '<style>@page{size:%s;margin:1cm 2cm}body{margin:0}</style>x' % d['size']}])
         print('replay:', st, (o[0]['mw'], o[0]['mh']) if st == 'ok' else o)
